@@ -1095,18 +1095,27 @@ class eigenbasis_of(basis_context_manager):
             # operators registered with the context above this one
             ops_above = self.manager.basis_registered[nb]
 
+        # An object which cannot be transformed back (e.g. one whose 
+        # construction failed inside the context after it had been registered)
+        # must neither keep the other objects in the basis we are leaving, 
+        # nor prevent the bookkeeping from being restored.
+        first_error = None
         for op in operators:
-            # the operator might have been set to protected mode
-            # inside the context
-            if not op.is_basis_protected:
-                op.transform(S1,inv=SS) 
-            op.set_current_basis(nb)
-            
-            # operators which appeared in this context and where not
-            # register in the one above are now registerd
-            if nb != 0:
-                if op not in ops_above:
-                    self.manager.register_with_basis(nb,op)
+            try:
+                # the operator might have been set to protected mode
+                # inside the context
+                if not op.is_basis_protected:
+                    op.transform(S1,inv=SS) 
+                op.set_current_basis(nb)
+                
+                # operators which appeared in this context and where not
+                # register in the one above are now registerd
+                if nb != 0:
+                    if op not in ops_above:
+                        self.manager.register_with_basis(nb,op)
+            except Exception as err:
+                if first_error is None:
+                    first_error = err
             
         self.manager.store_current_basis_operator(self.op_backup)
             
@@ -1115,6 +1124,11 @@ class eigenbasis_of(basis_context_manager):
         
         if len(self.manager.basis_stack) == 1:
             self.manager._in_eigenbasis_of_context = False
+
+        # the failure is reported unless an exception is already on its way
+        # out of the context (which would be masked by it)
+        if (first_error is not None) and (ext_ty is None):
+            raise first_error
 
         
         if self.manager.warn_about_basis_change:
